@@ -292,11 +292,35 @@ pub fn game_with(r: &mut Rng, shapes: &[&str], min_infosets: usize, tweak: impl 
 /// games for the command-line checks: every number is an exact short decimal / small integer
 pub fn cli_game(r: &mut Rng, min_infosets: usize, max_nodes: usize) -> (MNode, &'static str) {
     let shapes = ["poker", "mixed", "degenerate", "simultaneous", "tiny", "chain", "lopsided", "bushy"];
-    game_with(r, &shapes, min_infosets, |s| {
+    let (g, shape) = game_with(r, &shapes, min_infosets, |s| {
         s.decimal_payoffs = true;
         s.integer_payoffs = false;
         s.integer_weights = true;
         s.pay_scale = 1.0;
         s.max_nodes = s.max_nodes.min(max_nodes);
-    })
+    });
+    // every payoff is THE double nearest to a multiple of 1/1000 (what a parser makes of the
+    // short decimal the writers emit), also after the shifts of dominated actions
+    let g = g.map_payoffs(&mut |x| ((x * 1000.0).round()) / 1000.0);
+    // a third of the games carry multi-byte names (order of the names is preserved)
+    if r.coin(0.3) {
+        (unicode_names(&g), shape)
+    } else {
+        (g, shape)
+    }
+}
+
+fn unicode_names(n: &MNode) -> MNode {
+    match n {
+        MNode::T(x) => MNode::T(*x),
+        MNode::C { info, outs } => MNode::C {
+            info: info.as_ref().map(|i| i.replace('D', "\u{394}")),
+            outs: outs.iter().map(|(a, w, c)| (a.replace('o', "\u{f6}"), *w, unicode_names(c))).collect(),
+        },
+        MNode::P { player, info, acts } => MNode::P {
+            player: *player,
+            info: info.replace('X', "\u{39e}\u{2192}").replace('Y', "\u{3a8}\u{20ac}"),
+            acts: acts.iter().map(|(a, c)| (a.replace('a', "\u{e4}"), unicode_names(c))).collect(),
+        },
+    }
 }
